@@ -282,7 +282,7 @@ def signature(case, verdict, failed):
     tags = set(verdict.get("tags", []))
     why = verdict.get("why", "")
     if failed == ["spec"]:
-        if asp == "decode" and "layoutDiffers" in tags and _b_drops_shape(case):
+        if asp == "decode" and "layoutDiffers" in tags and _b_drops_shape(case) and verdict.get("agree"):
             return "decode:B-rank-drops-imposed-shape"
         if asp == "size" and why.startswith("size:assert") and "sizeAssertOnlyEmpty" in tags:
             return "size:assert-on-empty-fiber"
